@@ -30,6 +30,37 @@ type Lit struct {
 	X, Y ssa.Value // operands for eq / lt
 	Subs []Lit     // for compound literals: the sub-literals (each with its own polarity inside the compound)
 	Via  string    // helper function this literal was expanded from ("" if direct)
+	Ctx  pinMap    // calling context (helper -> call) in which Val / X / Y have to be described (nil: none)
+}
+
+// In evaluates f in the calling context the literal was made in.
+func (l Lit) In(P *Program, f func()) {
+	if len(l.Ctx) == 0 || P == nil {
+		f()
+		return
+	}
+	P.PinnedAll(l.Ctx, f)
+}
+
+// withCtx marks every literal of the formula as made under pins.
+func (f *formula) withCtx(pins pinMap) {
+	if f == nil || len(pins) == 0 {
+		return
+	}
+	if f.op == "leaf" {
+		np := pinMap{}
+		for k, v := range pins {
+			np[k] = v
+		}
+		for k, v := range f.lit.Ctx { // inner context wins
+			np[k] = v
+		}
+		f.lit.Ctx = np
+		return
+	}
+	for _, s := range f.sub {
+		s.withCtx(pins)
+	}
 }
 
 func (l Lit) String() string {
@@ -109,7 +140,8 @@ func (P *Program) condFormula(v ssa.Value, depth int) *formula {
 // it IS the returned expression, evaluated in the calling context of this call (extracting a condition - or a
 // comma-ok lookup - into a helper does not change the literal).
 func (P *Program) inlineBoolHelper(call *ssa.Call, k int, depth int) *formula {
-	callee := call.Call.StaticCallee()
+	// the static callee, or the function literal a function-typed parameter / local variable stands for
+	callee := P.Callee(&call.Call)
 	if callee == nil || !P.IsProductFunc(callee) || len(callee.Blocks) == 0 || P.isAnchor(callee) || P.inlineBusy[callee] {
 		return nil
 	}
@@ -146,7 +178,9 @@ func (P *Program) inlineBoolHelper(call *ssa.Call, k int, depth int) *formula {
 	P.inlineBusy[callee] = true
 	defer delete(P.inlineBusy, callee)
 	var f *formula
-	P.PinnedAll(map[*ssa.Function]ssa.CallInstruction{callee: call}, func() { f = P.condFormula(rv, depth+1) })
+	pins := map[*ssa.Function]ssa.CallInstruction{callee: call}
+	P.PinnedAll(pins, func() { f = P.condFormula(rv, depth+1) })
+	f.withCtx(pins)
 	return f
 }
 
@@ -835,7 +869,15 @@ func (P *Program) nonNilSummary(call *ssa.Call, k int) []Lit {
 	if first {
 		return nil
 	}
-	return res.list()
+	out := res.list()
+	for i := range out {
+		np := pinMap{callee: call}
+		for k, v := range out[i].Ctx {
+			np[k] = v
+		}
+		out[i].Ctx = np
+	}
+	return out
 }
 
 // BlockCutBy: does every path from entry to b take an edge carrying a literal that satisfies pred?
